@@ -1340,6 +1340,7 @@ impl Check for StopCheck {
         // (own streams) the same Rewrite values applied to another e-graph before the run; a hook that
         // unites the classes of the two start terms at a seeded call (hooks may change the e-graph)
         run.set("decoy_first", [0, 0, 0, 1, 2, 3, 3][Rng::stream(seed, "c15-decoy").below(7)]);
+        run.set("run_again_uncleared", Rng::stream(seed, "c15-run-again").chance(1, 4) as i64);
         run.set("hook_union_at", *Rng::stream(seed, "c15-hook-union").pick(&[-1, -1, -1, 0, 1, 2]));
         if run.get("hook_union_at") >= 0 && run.get("driver") != 3 {
             let mut ur = Rng::stream(seed, "c15-union-fold");
@@ -1742,6 +1743,33 @@ impl Check for StopCheck {
                         return out;
                     }
                     out.bump("saturation_rechecked");
+                }
+                if round == 1 && rerun == 0 && run.get("run_again_uncleared") != 0 {
+                    // the caller changes the e-graph through the public field and calls `run` once more WITHOUT
+                    // clearing the stop reason: the runner does nothing (its stop reason stands, 12.9), but the
+                    // report it hands out still has to describe the e-graph as it is now
+                    let extra = to_re::<LA>(&Tm::node("neg", vec![], vec![(vec![], Tm::node("neg", vec![], vec![(vec![], Tm::pay("cst", 77))]))]), &mut s.nm);
+                    let eg = std::mem::replace(&mut s.eg, new_la_egraph(run));
+                    runner.egraph = eg;
+                    let r2 = catch_op(|| {
+                        runner.egraph.add_expr(extra);
+                        runner.run(&rules)
+                    });
+                    s.eg = std::mem::replace(&mut runner.egraph, new_la_egraph(run));
+                    match r2 {
+                        Err(_) => {
+                            out.discarded = Some("panic".into());
+                            return out;
+                        }
+                        Ok(rep2) => {
+                            out.bump("run_again_without_clearing");
+                            let nodes2 = s.eg.total_number_of_nodes();
+                            if rep2.egraph_nodes != nodes2 {
+                                out.violations.push(v("report_node_count", format!("second call of run (stop reason left as it was, a term inserted in between): report says {} nodes, e-graph has {nodes2}", rep2.egraph_nodes)));
+                                return out;
+                            }
+                        }
+                    }
                 }
                 if rerun == 0 || round == 2 || s.eg.total_number_of_nodes() > 400 {
                     break;
